@@ -195,7 +195,7 @@ class dhcp(packet_base):
             # Assume chaddr is ethernet
             self.chaddr = EthAddr(self.chaddr[:6])
         self.sname = raw[44:108]
-        self.file = raw[102:236]
+        self.file = raw[108:236]
         self.magic = raw[236:240]
 
         self.hdr_len = dlen
